@@ -183,6 +183,12 @@ def run_case(case, agg):
             problems.append(("collect", f"error line numbers {got_lines} ({len(errs)} errors)", f"{processed}"))
     elif errs:
         problems.append(("collect", f"{len(errs)} errors collected without 'collect'", "none"))
+    if eff["collect"] and not eff["raise"] and kind == "two-components" and got_lines == processed:
+        # two components fail on the same line: neither error may be lost
+        for ln in processed:
+            n_here = sum(1 for e in errs if e.line_count == ln)
+            if n_here < 2:
+                problems.append(("collect-lost-second-error", f"{n_here} error(s) recorded for line {ln}", ">= 2 (two failing components)"))
     if c.is_valid != (not eff["fail"]):
         problems.append(("fail", f"is_valid={c.is_valid}", f"is_valid={not eff['fail']}"))
     printed = len(cap.lines)
